@@ -417,6 +417,21 @@ func CheckTotal(k string, buf []byte, newBuf bool, d Decoded) string {
 			if newBuf && d.Place != 1 {
 				return "newBuf=true returned memory inside the input"
 			}
+			if extra := d.Data[len(d.Data):cap(d.Data)]; newBuf && len(extra) > 0 {
+				// spare capacity of the copy: whatever it holds, it is not what stands behind the value in the source array
+				src := buf[:cap(buf)][d.N:]
+				m := len(extra)
+				if len(src) < m {
+					m = len(src)
+				}
+				nonzero := false
+				for _, b := range src[:m] {
+					nonzero = nonzero || b != 0
+				}
+				if m > 0 && nonzero && bytes.Equal(extra[:m], src[:m]) {
+					return "newBuf=true: the spare capacity of the returned copy holds the bytes that follow the value in the source array (read past the end of the value / of the input)"
+				}
+			}
 			if !newBuf && d.Place != 2+uint64(d.N-len(d.Data)) {
 				return "newBuf=false returned memory that is not the sub-slice of the input"
 			}
